@@ -21,7 +21,7 @@ VARIABLES l,        \* next event
           errs
 
 tvars == <<l, cfgLine, gpLine, dev, errs>>
-MaxErrs == 8
+MaxErrs == 400
 TraceInit == l = 1 /\ cfgLine = 1 /\ gpLine = 1 /\ dev = FALSE /\ errs = <<>>
 
 Full(st, gp) == [bal |-> st.bal, supply |-> st.supply, nopk |-> st.nopk, daoOwner |-> st.daoOwner, upg |-> st.upg,
